@@ -16,6 +16,7 @@ type c05 struct {
 	s *Sys
 	// step at which Committed.Index of a configuration last changed
 	comStep map[string]int
+	snap    map[string]map[string]*configapi.PathValue
 }
 
 func (m *c05) Name() string { return "C05" }
@@ -173,6 +174,18 @@ func (m *c05) FillExtra(x map[string]string) {
 func (m *c05) OnCfg(old, new *configapi.Configuration, w WriteRec) {
 	if old == nil || old.Status.Committed.Index != new.Status.Committed.Index {
 		m.comStep[string(new.ID)] = w.Step
+		// what is readable right after the commit of that index: the value map is written before the record, and no
+		// successor can merge before the record says so. (The proposal's own COMMITTED status may land much later - after
+		// a failed write and a retry - when successors have merged more; comparing with the values of that later moment
+		// was a false alarm of this oracle, found by the thorough tier with store faults.)
+		if m.snap == nil {
+			m.snap = map[string]map[string]*configapi.PathValue{}
+		}
+		cp := map[string]*configapi.PathValue{}
+		for k, v := range m.s.Rec.Vals[string(new.ID)] {
+			cp[k] = v
+		}
+		m.snap[fmt.Sprintf("%s@%d", new.ID, new.Status.Committed.Index)] = cp
 	}
 }
 
@@ -222,7 +235,11 @@ func (m *c05) OnProp(old, new *configapi.Proposal, w WriteRec) {
 		s.Report("C05", "document", "undecodable", fmt.Sprintf("document validated for %s cannot be flattened along the schema: %v", pid, err))
 		return
 	}
-	stored, err := StoredTree(s.Rec.Vals[cfgID])
+	vals := s.Rec.Vals[cfgID]
+	if sn, ok := m.snap[fmt.Sprintf("%s@%d", cfgID, new.TransactionIndex)]; ok {
+		vals = sn
+	}
+	stored, err := StoredTree(vals)
 	if err != nil {
 		s.Report("HARNESS", "stored-tree", "parse", err.Error())
 		return
